@@ -453,13 +453,12 @@ pub fn idle_family(id0: usize, rng: &mut Rng, out: &mut Vec<String>) {
         // silence in the middle of a message
         gaps.push((rng.range(1, base.bytes.len() - 1), *rng.pick(&[6_000_000u64, 61_000_000])));
     }
-    let slow = rng.chance(1, 3);
+    // one slow handler per conversation: the driver waits at most 30 virtual seconds for the
+    // conversation to finish once the client has sent everything
+    let slow = rng.chance(1, 3) && !base.script.is_empty();
     if slow {
-        for a in base.script.iter_mut() {
-            if rng.chance(1, 2) {
-                a.delay_ms = *rng.pick(&[6_000u64, 12_000]);
-            }
-        }
+        let k = rng.below(base.script.len());
+        base.script[k].delay_ms = *rng.pick(&[6_000u64, 12_000]);
     }
     let mut c = ctl(base);
     c.gaps = gaps.clone();
